@@ -495,18 +495,24 @@ class JSRegExp(JSObject):
         self.set("lastIndex", value)
         self._internal.lastIndex = value
 
+    def _start_index(self) -> int:
+        """ToLength(lastIndex): the position a global/sticky match starts from."""
+        return max(0, to_integer(self.get("lastIndex")))
+
     def test(self, string: str) -> bool:
         """Test if the pattern matches the string."""
-        self._internal.lastIndex = self.lastIndex
+        self._internal.lastIndex = self._start_index()
         result = self._internal.test(string)
-        self.lastIndex = self._internal.lastIndex
+        if "g" in self._flags or "y" in self._flags:
+            self.lastIndex = self._internal.lastIndex
         return result
 
     def exec(self, string: str):
         """Execute a search for a match."""
-        self._internal.lastIndex = self.lastIndex
+        self._internal.lastIndex = self._start_index()
         result = self._internal.exec(string)
-        self.lastIndex = self._internal.lastIndex
+        if "g" in self._flags or "y" in self._flags:
+            self.lastIndex = self._internal.lastIndex
 
         if result is None:
             return NULL
